@@ -397,6 +397,14 @@ func (r *Raft) restore() error {
 			r.committedConfiguration = &committedConfiguration
 		}
 		r.configuration = &configuration
+
+		// A node that is restarted in place keeps its state machine and the index of the last
+		// applied entry: a configuration that it has applied already is committed, and it will
+		// not be applied (and recorded as committed) again.
+		if entry.Index <= r.lastApplied {
+			committedConfiguration := configuration.Clone()
+			r.committedConfiguration = &committedConfiguration
+		}
 	}
 
 	return nil
